@@ -129,9 +129,7 @@ func c06Unauth(c *vk.Ctx, r *rand.Rand, rg *c06Rig, hub *TargetHub, pc probeCase
 		c.Violation("C06/bytes-sent-to-unauthenticated-client", wit)
 		return false
 	}
-	if hub.Accepted.Load() != before && false {
-		// (targets are shared between concurrent cases; dial monitoring is done per case IP below)
-	}
+	_ = before // (targets are shared between concurrent cases; unexpected dials are audited at the end of the run)
 	if !pc.FIN {
 		if obs.kind == "timeout" {
 			c.Violation("C06/probe-connection-not-closed-within-bound", wit)
@@ -454,6 +452,12 @@ func c06Run(c *vk.Ctx) {
 	case <-stop:
 		return
 	default:
+	}
+	// No target may have been contacted on behalf of input that never authenticated: the only
+	// addresses with a script are those of the replay/auth-then-invalid cases.
+	if u := hub.UnexpectedList(); len(u) > 0 {
+		c.Violation("C06/target-contacted-for-unauthenticated-input", u[:min(len(u), 5)])
+		return
 	}
 	// Probes that are being absorbed when their listener shuts down are still held until the deadline.
 	rg := rigs[0]
